@@ -238,6 +238,11 @@ class PrecipitateModel (PrecipitateBase):
             if self.RdrivingForceIndex[p]+1 < len(self.PSDXalpha[p][:,0]):
                 self.PSDXalpha[p][:self.RdrivingForceIndex[p]+1,0] = self.PSDXalpha[p][self.RdrivingForceIndex[p]+1,0]
                 self.PSDXbeta[p][:self.RdrivingForceIndex[p]+1,0] = self.PSDXbeta[p][self.RdrivingForceIndex[p]+1,0]
+                #A failed calculation (-1) for a larger size class continues from the last valid (smaller) size class
+                for i in range(self.RdrivingForceIndex[p]+2, len(self.PSDXalpha[p][:,0])):
+                    if self.PSDXalpha[p][i,0] == -1:
+                        self.PSDXalpha[p][i,0] = self.PSDXalpha[p][i-1,0]
+                        self.PSDXbeta[p][i,0] = self.PSDXbeta[p][i-1,0]
             else:
                 self.PSDXalpha[p] = np.zeros((self.PBM[p].bins + 1,1))
                 self.PSDXbeta[p] = np.zeros((self.PBM[p].bins + 1,1))
